@@ -62,6 +62,10 @@ Done == dir = "fromZ" /\ stage > FromZHi
 Finish == Done /\ UNCHANGED vars
 Next == SpreadAct \/ Combine \/ SqueezeAct \/ Finish
 Spec == Init /\ [][Next]_vars
+(* thorough tier: both words with up to two bits (279 841 generator pairs) *)
+InitDeep == /\ x0 \in Words2 /\ y0 \in Words2
+            /\ x = x0 /\ y = y0 /\ stage = ToZHi /\ dir = "toZ" /\ z = {}
+SpecDeep == InitDeep /\ [][Next]_vars
 
 (* ---------- properties (C17) ---------- *)
 KeyIsInterleave == dir = "fromZ" => z = Interleave(x0, y0)
